@@ -93,6 +93,8 @@ def labels_of_tree(t):
             out.add(L_MIXED)
         if a[0] == "A" and b[0] == "F":
             out.add(L_FREE_RIGHT)
+        if (a[0] == "L" and a[2] and b[0] == "F") or (a[0] == "F" and b[0] == "L" and b[2]):
+            out.add(L_FREE_OWN)       # a.with_model(m) + free sum (either order): same root cause (__new__), same repair
         go(a)
         go(b)
     go(t)
@@ -525,6 +527,9 @@ def oracle(c, r):
     got = dict(r["struct"])
     got_exc = got.pop("exc", None)
     if exp["kind"] == "error":
+        if got["kind"] == "error" and got_exc == "uninitialised":
+            out.append(("the expression must raise; it returned an object whose __init__ never ran (it fails on first use)",
+                        tl & {L_FREE_OWN}))
         if got["kind"] != "error":
             out.append(("adding to a free-parameter analysis (or freeing a single analysis) gave %s instead of an error" % got,
                         tl & {L_FREE_RIGHT}))
@@ -741,14 +746,17 @@ def run_impl_chunks(cases, workers):
         for i, r in zip(ch, o["results"]):
             results[i] = r
     # a timeout of the steering harness is a harness matter first: retry that case alone, once
+    retries = 0
     for i, r in enumerate(results):
-        if r is not None and "timeout" in r:
+        if r is not None and "timeout" in r and retries < 6:
+            retries += 1
             o = common.run_impl("c15_impl", {"cases": [idx_cases[i]]}, timeout=900)
             if "__error__" not in o:
                 first = r["timeout"]
                 results[i] = o["results"][0]
                 if "timeout" in results[i]:
                     results[i]["timeout"] = "twice: %s / %s" % (first, results[i]["timeout"])
+                    break                     # reproducible: no point in retrying the others
     return results, err
 
 
@@ -788,10 +796,14 @@ def run(ctx):
     ctx.build()
     cases = gen_cases(ctx)
     corpus_dir = os.path.join(common.VERIF, "corpus", "C15")
+    pinned = []                                  # (signature of a repaired finding, case) from the corpus
     if os.path.isdir(corpus_dir):
         for f in sorted(os.listdir(corpus_dir), reverse=True):
             if f.endswith(".json"):
-                cases.insert(0, json.load(open(os.path.join(corpus_dir, f)))["case"])
+                d = json.load(open(os.path.join(corpus_dir, f)))
+                cases.insert(0, d["case"])
+                if d.get("signature"):
+                    pinned.append((d["signature"], d["case"]))
     if ctx.replay:
         rp = json.load(open(ctx.replay))
         if rp.get("case"):
@@ -844,6 +856,15 @@ def run(ctx):
             coq_idx.append(i)
         if i % 41 == 0:
             ctx.sample({"case": key if len(str(key)) < 500 else {"kind": c["kind"], "expr": c.get("expr")}}, limit=8)
+    # a repaired finding must stay repaired: its pinned corpus case has to satisfy the oracle
+    status = {k.get("signature"): k.get("status") for k in common.load_known("C15")}
+    if not ctx.replay:
+        for sig, pc in pinned:
+            if status.get(sig) != "fixed":
+                continue
+            idxs = [i for i, c in enumerate(cases) if c is pc]
+            bad = [m for i in idxs for m, _ in oracle_msgs.get(i, [("case did not run", set())])]
+            ctx.obligation("regression:" + sig, "regression", not bad, "; ".join(bad)[:400] if bad else "pinned case passes")
     if timeouts:
         # the steering harness gave up twice on the same case: the pool never delivered / never returned
         i, msg = timeouts[0]
